@@ -242,6 +242,7 @@ def rt_sandwich(seed, n, constant=False):
     import random, warnings
     rnd = random.Random(seed if not constant else 'const/%s' % seed)
     out = []
+    reused = {}
     fam = P.family('thorough', seed)
     for k in range(n):
         sk = fam[k % len(fam)]
@@ -266,6 +267,18 @@ def rt_sandwich(seed, n, constant=False):
             eps = rnd.choice([1e-2, 1e-3])
             res = pb.PointBasedValueIteration(min_belief_expansions=3, max_belief_expansions=6, value_convergence_epsilon=eps).plan_on(pomdp)
             qres = qm.QMDP().plan_on(pomdp)
+            # planner OBJECTS that have already planned on the previous instances (other discount, other rewards) must plan like fresh ones
+            key = eps
+            if key not in reused:
+                reused[key] = (pb.PointBasedValueIteration(min_belief_expansions=3, max_belief_expansions=6, value_convergence_epsilon=eps), qm.QMDP())
+            res2, qres2 = reused[key][0].plan_on(pomdp), reused[key][1].plan_on(pomdp)
+        b0_ = Belief(tuple(pomdp.state_list), tuple(np.asarray(pomdp.initial_state_vec, dtype=float)))
+        out.append(dict(name='rt:planner-objects-reused-across-models-plan-like-fresh-ones(PBVI,QMDP)',
+                        ok=abs(float(res.policy.value(b0_)) - float(res2.policy.value(b0_))) < 1e-9 and abs(float(qres.policy.value(b0_)) - float(qres2.policy.value(b0_))) < 1e-9
+                        and np.asarray(res.policy.alpha_vectors).shape == np.asarray(res2.policy.alpha_vectors).shape,
+                        witness=dict(skel=sk.name, k=k, eps=eps, fresh=float(res.policy.value(b0_)), reused=float(res2.policy.value(b0_)))))
+        with warnings.catch_warnings():
+            warnings.simplefilter('ignore')
         tf, of = pomdp.transition_matrix, pomdp.observation_matrix
         sarf = pomdp.state_action_reward_matrix * (~pomdp.absorbing_state_vec)[:, None]
         tfm = tf * (~pomdp.absorbing_state_vec)[:, None, None]
